@@ -485,6 +485,9 @@ func (f *Frame) conHints(anchor string) []Hint {
 	if f.con == nil {
 		return nil
 	}
+	if len(f.con.Hints[anchor]) > 0 {
+		f.vc.usedAnchors[anchor] = true
+	}
 	return f.con.Hints[anchor]
 }
 
